@@ -325,6 +325,32 @@ func (c *concretizer) stmt(s xStmt) {
 
 // ---- data catalogue for range subjects --------------------------------------------------------
 
+// stackRanger / feedRanger: custom Rangers whose underlying kind (slice, chan) Jet could also range over by itself -
+// the Ranger implementation wins
+type stackRanger []string
+
+func (s *stackRanger) Range() (reflect.Value, reflect.Value, bool) {
+	if len(*s) == 0 {
+		return reflect.Value{}, reflect.Value{}, true
+	}
+	v := (*s)[len(*s)-1]
+	*s = (*s)[:len(*s)-1]
+	return reflect.Value{}, reflect.ValueOf(v), false
+}
+func (s *stackRanger) ProvidesIndex() bool { return false }
+
+type feedRanger chan string
+
+func (f feedRanger) Range() (reflect.Value, reflect.Value, bool) {
+	i := cap(f) - len(f)
+	v, ok := <-f
+	if !ok {
+		return reflect.Value{}, reflect.Value{}, true
+	}
+	return reflect.ValueOf(i), reflect.ValueOf(v), false
+}
+func (f feedRanger) ProvidesIndex() bool { return true }
+
 type idxRanger struct {
 	vs []string
 	i  int
@@ -375,6 +401,20 @@ func collValue(e xExpr) interface{} {
 		}
 		close(ch)
 		return ch
+	case "customslice":
+		// a custom Ranger declared on a slice type: it pops from the end, so the slice holds the elements reversed
+		st := make(stackRanger, 0, len(e.Vs))
+		for i := len(e.Vs) - 1; i >= 0; i-- {
+			st = append(st, e.Vs[i])
+		}
+		return &st
+	case "customchan":
+		f := make(feedRanger, len(e.Vs))
+		for _, v := range e.Vs {
+			f <- v
+		}
+		close(f)
+		return f
 	case "customidx":
 		return &idxRanger{vs: e.Vs}
 	case "custom":
